@@ -9,7 +9,7 @@ PID = 'C05'
 LEVEL = 'exploration'
 ENGINE = 'E1'
 TECHNIQUE = 'bounded exhaustive enumeration (full product look x atmosphere x twist x bullet data x result mode), every row of every result recomputed from its primitives with independent Miller/Litz and lapse-rate formulas'
-RULE = ('cells = look {0,+-20,45 deg} x atmosphere {ICAO, ICAO 5000 ft, 1000 ft/27 inHg/100 F/50 %} x twist {12,-8,0 in} x bullet data '
+RULE = ('cells = look {0,+-20,45 deg} x atmosphere {ICAO, ICAO 5000 ft, 1000 ft/27 inHg/100 F/50 %, vacuum at 5000 ft/-10 C} x twist {12,-8,0 in} x bullet data '
         '{weight+diameter+length, no length, no weight, no diameter} x mode {plain 50-yd rows, extra rows, rows of an incomplete trajectory, '
         'full step trace}; every row is checked; non-trivial = cell with look != 0 or non-ICAO atmosphere or twist != 0 (distinct cells counted)')
 ASSUMPTIONS = ['Mach band: variation of the speed of sound over +-(30 ft + one step) (documented shortcut) + 1e-4',
@@ -18,7 +18,7 @@ ASSUMPTIONS = ['Mach band: variation of the speed of sound over +-(30 ft + one s
 
 LAPSE_K_PER_FT = 0.0019812
 A_CONST = 49.0223  # fps per sqrt(Rankine); ISA: sqrt(1.4*287.05287*5/9)/0.3048 = 49.0221
-ATMOS = {'icao': 'icao', 'icao5k': 'icao5k', 'hot': [1000.0, 27.0, 100.0, 50]}
+ATMOS = {'icao': 'icao', 'icao5k': 'icao5k', 'hot': [1000.0, 27.0, 100.0, 50], 'vac5k': 'vac5k'}
 BULLETS = {'full': (168.0, 0.308, 1.282), 'nolength': (168.0, 0.308, 0.0), 'noweight': (0.0, 0.308, 1.2), 'nodiameter': (168.0, 0.0, 1.282)}
 
 
@@ -37,8 +37,8 @@ def _shot(look, atmo, tw, bullet, mv=2750.0):
     U = pb.Unit
     w, d, l = BULLETS[bullet]
     dm = pb.DragModel(0.223, pb.TableG7, U.Grain(w), U.Inch(d), U.Inch(l))
-    return pb.Shot(pb.Weapon(U.Inch(2), U.Inch(tw), U.Degree(2)), pb.Ammo(dm, U.FPS(mv)), look_angle=U.Degree(look),
-                   atmo=make_atmo(ATMOS[atmo]))
+    at = pb.Vacuum(U.Foot(5000), U.Celsius(-10)) if atmo == 'vac5k' else make_atmo(ATMOS[atmo])
+    return pb.Shot(pb.Weapon(U.Inch(2), U.Inch(tw), U.Degree(2)), pb.Ammo(dm, U.FPS(mv)), look_angle=U.Degree(look), atmo=at)
 
 
 def _rows(calc, shot, mode):
@@ -85,7 +85,8 @@ def rows(cell):
     at = shot.atmo
     alt0 = at.altitude >> U.Foot
     t0_k = at.temperature >> U.Kelvin
-    S = miller(tw, w, d, l, 2750.0, at.temperature >> U.Fahrenheit, at.pressure >> U.InHg)
+    vacuum = (at.pressure >> U.InHg) == 0
+    S = 0.0 if vacuum else miller(tw, w, d, l, 2750.0, at.temperature >> U.Fahrenheit, at.pressure >> U.InHg)
 
     def a_ref(alt):
         tk = t0_k - LAPSE_K_PER_FT * (alt - alt0)
@@ -132,8 +133,8 @@ def rows(cell):
         sd = wd - (r0.windage >> U.Foot)
         exp = (1 if tw > 0 else -1) * 1.25 * (S + 1.2) * t ** 1.83 / 12 if (tw and d and l) else 0.0
         ok = abs(sd - exp) <= 1e-9 * max(1.0, abs(exp)) + 1e-12
-        if bullet == 'noweight' and abs(sd) <= 1e-12:
-            ok = True
+        if (bullet == 'noweight' or vacuum) and abs(sd) <= 1e-12:
+            ok = True      # no weight / no air: the stability formula is undefined, no drift is accepted
         if not ok:
             bad(f'row {i} (t={t:.4f} s): windage minus windage without twist = {sd!r} ft, Litz/Miller give {exp!r} ft (Sg={S:.4f})')
         # angle = direction of the velocity (from the step trace: position update is v_new * dt)
